@@ -246,15 +246,22 @@ nni_dialer_init(nni_dialer *d, nni_sock *s, nni_sp_tran *tran)
 
 	rv = d->d_ops.d_init(dp, &d->d_url, d);
 
+	// The identifier is allocated before the socket learns about us:
+	// a socket that is shutting down closes every endpoint on its list,
+	// and close must find the identifier in the map to remove it.
 	if (rv == 0) {
-		rv = nni_sock_add_dialer(s, d);
+		nni_mtx_lock(&dialers_lk);
+		rv = nni_id_alloc32(&dialers, &d->d_id, d);
+		nni_mtx_unlock(&dialers_lk);
 	}
 
 	if (rv == 0) {
 		NNI_VERIF_DELAY(1, d);
-		nni_mtx_lock(&dialers_lk);
-		rv = nni_id_alloc32(&dialers, &d->d_id, d);
-		nni_mtx_unlock(&dialers_lk);
+		if ((rv = nni_sock_add_dialer(s, d)) != 0) {
+			nni_mtx_lock(&dialers_lk);
+			nni_id_remove(&dialers, d->d_id);
+			nni_mtx_unlock(&dialers_lk);
+		}
 	}
 
 	if (rv == 0) {
